@@ -53,11 +53,15 @@ theorem accounted_step {v : Variant} {s s' : State} {e : Event} (ha : Accounted 
   | pop i t =>
     simp only [step] at h
     split at h <;> try (simp at h)
-    rename_i b t' rest hi hq
-    obtain ⟨rfl, rfl⟩ := h
+    rename_i hi
+    obtain ⟨hmem, rfl⟩ := h
     have := runCount_set (.run t) t0 hi
-    simp [State.goto, hq, List.count_cons] at this h0 ⊢
-    omega
+    have hc : 0 < s.queue.count t := List.count_pos_iff.2 hmem
+    simp [State.goto, List.count_erase] at this h0 ⊢
+    by_cases ht : t = t0
+    · subst ht; simp at this ⊢; omega
+    · have ht' : ¬ t0 = t := fun h => ht h.symm
+      simp [ht, ht'] at this ⊢; omega
   | finish i =>
     simp only [step] at h
     split at h <;> try (simp at h)
@@ -120,8 +124,15 @@ theorem accounted_step {v : Variant} {s s' : State} {e : Event} (ha : Accounted 
     split at h <;> try (simp at h)
     rename_i ok hi hq
     subst h
-    have := runCount_set (if ok then .noTask else .exiting) t0 hi
+    have := runCount_set (if ok then .noTask else .drained) t0 hi
     cases ok <;> simp [State.goto] at this h0 ⊢ <;> omega
+  | drainExit i =>
+    simp only [step] at h
+    split at h <;> try (simp at h)
+    rename_i hi
+    subst h
+    have := runCount_set (if s.kill == -1 then .exiting else .noTask) t0 hi
+    by_cases hk : s.kill = -1 <;> simp [State.goto, hk] at this h0 ⊢ <;> omega
   | regIdle i =>
     simp only [step] at h
     split at h <;> try (simp at h)
